@@ -1237,12 +1237,10 @@ impl FseDecoder {
             }
         }
         
-        // Build decompression table
-        let config = FseConfig {
-            table_log,
-            ..self.config.clone()
-        };
-        let table = FseTable::new(&frequencies, &config)?;
+        // Build decompression table. FseTable::new builds 2^12 slots whatever config.table_log
+        // says (the header's table_log is that 12), so the decoder's own validated configuration
+        // is used unchanged, exactly as the encoder used it
+        let table = FseTable::new(&frequencies, &self.config)?;
         let table_size = 1usize << table_log;
         
         // Read initial state from the END of the data (rANS reads backward)
